@@ -234,10 +234,25 @@ class FJLexer(sly.Lexer):
             elif n[1] in 'bB':
                 t.value = int(n, 2)
             else:
-                t.value = int(n)
+                t.value = self._decimal_value(n)
         else:
             t.value = int(t.value)
         return t
+
+    def _decimal_value(self, digits: str) -> int:
+        try:
+            return int(digits)
+        except ValueError:
+            # python limits decimal str->int conversion (thousands of digits); such a literal is a lexing error
+            global error_occurred, all_errors
+            error_occurred = True
+            error_string = (
+                f"Lexing Error in {get_position(self.lineno)}: "
+                f"a decimal literal of {len(digits)} digits is too long (write it in hex)"
+            )
+            all_errors += f"{error_string}\n"
+            print(error_string)
+            return 0
 
     def STRING(self, t: Token) -> Token:
         chars = []
